@@ -441,14 +441,15 @@ where
         + LossyFrom<I9F23>
         + LossyFrom<U0F128>,
 {
-    //wraparound
-    while angle > PI {
-        verif_tick!();
-        angle -= T::lossy_from(TWO_PI);
+    //wraparound: one remainder instead of one subtraction per period, so that the
+    //work does not grow with the magnitude of the angle
+    let two_pi = T::lossy_from(TWO_PI);
+    angle %= two_pi;
+    if angle > PI {
+        angle -= two_pi;
     }
-    while angle < -PI {
-        verif_tick!();
-        angle += T::lossy_from(TWO_PI);
+    if angle < -PI {
+        angle += two_pi;
     }
     //mirror
     if angle > FRAC_PI_2 {
